@@ -256,6 +256,13 @@ func zzTableDamage(n int) {
 		}
 	} else {
 		vpAssert(ferr == ErrNotFound || errors.IsCorrupted(ferr), "damaged-find-error-kind")
+		if ferr == ErrNotFound {
+			// "not found" only when there really is no stored key >= q: an
+			// unreadable block must be reported, not skipped
+			for i := range t.K {
+				vpAssert(bytes.Compare(t.K[i], q) < 0, "damaged-find-hides-nothing")
+			}
+		}
 	}
 	// iteration: yields a subsequence of the original pairs, or reports corruption
 	it := r.NewIterator(nil, nil)
